@@ -8,7 +8,7 @@ IDX = {}
 # harnesses whose body only exists under Kani (recorder stubs / uninterpreted estimator / wait stub)
 KANI_ONLY = {"c06_new_wiring", "c19_async_new_wiring", "c10_wait_barrier", "c10_wait_vs_clear", "c10_wait_inflight",
              "c13_tinylfu_new", "c07_add_rule_n2", "c07_add_rule_n3", "c17_add_metrics_n2", "c17_add_metrics_n3",
-             "c19_async_client_remove_wiring", "c19_async_get_records",
+             "c19_async_client_remove_wiring", "c19_async_get_records", "c15_async_ring_batches",
              # natively the real close() blocks on the rendezvous stop channel until a worker takes the signal
              "c12_close_seq",
              }
@@ -30,6 +30,8 @@ DROPPED = {
     "c16_proc_tick": "same body as c06_proc_tick",
     "c05_proc_tick": "CBMC out of memory (40 GB) after ~13 min",
     "c17_metrics_inner": "timeout after 7200 s (11 x 256 atomics)",
+    "c11_metrics_clear_stripes": "timeout after 1500 s in symbolic execution (8 GB and growing): the real MetricsInner over a BTreeMap holding ONE counter type (256 atomics), built by struct literal - the BTreeMap leaf node (11 x 2 KB values) is one flat byte array for CBMC",
+    "c15_async_ring_batches": "CBMC's SAT back end ran out of its 16 GB limit after 955 s (symbolic execution finished, 4386 checks; two polled get() futures over the parked async cache with buffer_items symbolic in 0..2); the 40 GB retry was not completed in the time left",
     "c11_reuse_after_clear": "CBMC out of memory (50 GB) after ~15 min (clear + re-insert + tick through the whole parked pipeline)",
 }
 
@@ -240,6 +242,10 @@ H("C15", "c15_get_records", "cache::sync", ["Cache::get", "Cache::get_mut", "Rin
 IDX["C17"]["assumptions"] += [CHAN, ADDC, MREC, PARK, ARCD, "life-expectancy tracking: track_admission never inserts into start_ts (its insert is guarded by len > num_to_keep), so no entry is ever tracked and the tracked-eviction clause holds vacuously (observation O1)", "sets_dropped / gets_kept / gets_dropped are updated inside crossbeam select! arms that Kani cannot compile: by reading only"]
 H("C17", "c17_metrics_stripe_index", "metrics", ["MetricsInner::add (index arithmetic)"], "every 64-bit hash", timeout=300)
 H("C17", "c17_metrics_inner", "metrics", ["MetricsInner::new", "MetricsInner::add", "MetricsInner::get", "MetricsInner::ratio", "MetricsInner::clear"], "the real 11 x 256 striped atomics; two arbitrary counter types, hashes and deltas < 2^62", timeout=7200, mem_gb=40, tier="thorough", fs_array=64)
+MCS = ["MetricsInner::add", "MetricsInner::get", "MetricsInner::clear", "Histogram::clear"]
+MCB = "the real MetricsInner over a map holding one counter type (Hit; all 256 slots real atomics; every type has the same array type and goes through the same code), two arbitrary 64-bit hashes, deltas < 2^62"
+H("C17", "c17_metrics_clear_stripes", "metrics", MCS, MCB, timeout=1500, mem_gb=24, tier="thorough", alias_of="c11_metrics_clear_stripes")
+H("C11", "c11_metrics_clear_stripes", "metrics", MCS, MCB, timeout=1500, mem_gb=24, tier="thorough")
 H("C17", "c17_cache_counts", "cache::sync", ["CacheProcessor::handle_item", "CacheProcessor::track_admission", "LFUPolicy::add (contract)", "LFUPolicy::update", "LFUPolicy::remove", "SampledLFU::update (metrics arm)"], "metrics on (recorder); <= 1 resident; one Update / Delete item for an arbitrary key (the New event's counters: c17_add_metrics_n2 and the wiring harness)", timeout=1800)
 H("C17", "c15_get_records", "cache::sync", ["Cache::get", "Cache::get_mut", "Metrics::add (call sites)"], "hits + misses == lookups on the open cache (see C15)", timeout=1800)
 
@@ -306,6 +312,10 @@ H("C19", "c19_async_client_remove", "cache::r#async", ACF, ACB + "; try_remove o
 GRB = ACB.replace("buffer_items 64", "buffer_items 1") + "; get / get_mut on an open or closed cache: AsyncRingStripe::push -> AsyncLFUPolicy::push -> select!{send, default} on the policy's unbounded channel (FIFO contract): one batch [k], KeepGets + 1"
 H("C19", "c19_async_get_records", "cache::r#async", ACF + ["AsyncRingStripe::push (ring full)", "AsyncLFUPolicy::push"], GRB, timeout=2400, **AKW)
 H("C15", "c15_async_get_records", "cache::r#async", ACF + ["AsyncRingStripe::push (ring full)", "AsyncLFUPolicy::push"], GRB, timeout=2400, alias_of="c19_async_get_records", **AKW)
+ARB = "AsyncCache wired as AsyncCacheBuilder::finalize wires it (no task spawned), empty store, buffer_items symbolic in 0..2, two get() calls with arbitrary 64-bit keys on the open cache; the policy's unbounded channel is the FIFO contract (<= 2 pending batches)"
+ARF = ["AsyncCache::get", "AsyncRingStripe::push", "AsyncLFUPolicy::push (send arm)", "async_channel::Send::poll (real, above the try_send contract)"]
+H("C15", "c15_async_ring_batches", "cache::r#async", ARF, ARB, timeout=2400, mem_gb=40, tier="thorough", **AKW)
+H("C19", "c19_async_ring_batches", "cache::r#async", ARF, ARB, timeout=2400, mem_gb=40, tier="thorough", alias_of="c15_async_ring_batches", **AKW)
 H("C17", "c17_async_get_records", "cache::r#async", ACF + ["AsyncRingStripe::push (ring full)", "AsyncLFUPolicy::push"], GRB + "; gets_kept / gets_dropped accounting of the async flavour", timeout=2400, alias_of="c19_async_get_records", **AKW)
 IDX["C15"]["assumptions"] += [MREC, ARCD, "async flavour: async_channel::Sender::try_send replaced by a FIFO contract, one poll with a no-op waker, futures select! shuffle replaced by the identity (see C19)"]
 H("C12", "c12_async_insert_closed", "cache::r#async", ACF, ACB + "; closed flag set or not: insert on a closed AsyncCache returns false and has no effect", timeout=2400, alias_of="c19_async_client_insert_send", **AKW)
